@@ -1,7 +1,7 @@
-\* C16 leg A quick: 2 readers x 2 calls, 1 idle sweep, 1 Close, load may fail; all interleavings
+\* C16 leg A quick: 2 readers x 1 call, 1 idle sweep, 1 Close, load may fail; all interleavings, safety + termination under strong fairness
 SPECIFICATION FairSpec
 CONSTANTS Readers = {"r1", "r2"}
-          Calls = 2
+          Calls = 1
           Sweeps = 1
           Closers = {"closer"}
           LoadMayFail = TRUE
